@@ -4,7 +4,7 @@
 cd "$(dirname "$0")"
 export CARGO_NET_OFFLINE=true
 mkdir -p .cache work evidence
-( cd coq && coq_makefile -f _CoqProject -o Makefile >/dev/null && timeout 3000 make -k -j16 >/dev/null 2>work_make_err.log ; rc=$?; if [ $rc -ne 0 ]; then echo "setup: coq make reported errors (individual checks will report them):"; grep -A5 '^File' work_make_err.log | head -40; fi; rm -f work_make_err.log )
+( python3 tools/coqmake.py -k || echo "setup: coq build reported errors (individual checks will report them)" )
 [ -f harness/Cargo.lock ] || cp /repo/Cargo.lock harness/Cargo.lock
 ( cd harness && timeout 3000 cargo build --release --offline 2>&1 | tail -3 )
 echo setup-ok
